@@ -9,7 +9,7 @@ ids = sys.argv[1:] or sorted(d for d in os.listdir(f"{V}/seeded") if os.path.isd
 for sid in ids:
     d = f"{V}/seeded/{sid}"
     prop = re.match(r"(C\d\d)", sid).group(1)
-    checks = [prop] + ALSO.get(prop, [])
+    checks = [prop] + ([] if os.environ.get("SEEDMATRIX_OWN_ONLY") else ALSO.get(prop, []))
     assert subprocess.run(["git", "-C", "/repo", "diff", "--quiet"]).returncode == 0, "/repo dirty"
     subprocess.run(["git", "-C", "/repo", "apply", f"{d}/patch.diff"], check=True)
     results = {}
@@ -28,6 +28,6 @@ for sid in ids:
         meta = json.load(open(f"{d}/meta.json"))
     meta.update({"property": prop, "source": meta.get("source", "sub-agent given only the property text and a scratch worktree"),
                  "files": sorted(set(re.findall(r"^\+\+\+ b/(\S+)", open(f"{d}/patch.diff").read(), re.M))),
-                 "tests_pass_with_change": True, "checks_quick_tier": results})
+                 "tests_pass_with_change": True, "checks_quick_tier": {**meta.get("checks_quick_tier", {}), **results}})
     json.dump(meta, open(f"{d}/meta.json", "w"), indent=1)
     print(sid, {c: v["verdict"] for c, v in results.items()})
